@@ -1111,6 +1111,14 @@ def ma_filled(a, fill_value=None):
     _used("np.ma.filled")
     if isinstance(a, SymArray) and a._mask is not None:
         data = a.view(np.ndarray)
+        if fill_value is None:
+            # the array's own fill value: NumPy's default for the kind of its values
+            if data.size and all(_isboolish(e) for e in data.flat):
+                fill_value = True
+            elif data.size and all(isinstance(e, (int, np.integer, SymInt)) and not _isboolish(e) for e in data.flat):
+                fill_value = 999999
+            else:
+                fill_value = 1e20
         if data.size and all(_isboolish(e) for e in data.flat) and not _isboolish(fill_value):
             # NumPy keeps the bool dtype of the masked array: the fill value is cast (NaN -> True)
             fill_value = bool(fill_value)
